@@ -319,7 +319,82 @@ def run_schedule(it, prog, rep, cands, events, remaining_choices, seen):
         fail('trap', msg=str(e)[:200])
 
 
+def worker_step(job):
+    """one follow-up step from an arbitrary paging state (the schedules above can only reach small page counts): the stored
+    response is Partial{remaining_follow_ups = R, pages so far} with follow-up index K, both symbolic u8, K < R.  One heartbeat:
+    the request is FollowUp(K); after a FollowUp reply the stored response is Complete([pages so far + the new page]) iff
+    K + 1 = R, else Partial with index K + 1 and the page appended; nothing traps"""
+    prog = PROG
+    rep = H.Report(PROP, 'quick')
+    cands = Cands()
+    st = Stats()
+    seen = set()
+
+    def scenario(it):
+        w = World(it, prog, None)
+        w.log = []
+        w.adversarial = False
+        R = it.fresh('remaining_follow_ups', 'u8', 1, 255)
+        K = it.fresh('follow_up_index', 'u8', 0, 254)
+        it.assume(K.t < R.t)
+        presp = H.mk_struct(prog, 'types::GetSuccessorsPartialResponse', partial_block=blob([1]), next=VecV(), remaining_follow_ups=SInt(R.t, 'u8'))
+        w.sync_field('response_to_process').v = some(H.mk_variant(prog, 'ResponseToProcess', 'Partial', presp, SInt(K.t, 'u8')))
+        w.paging = dict(chunks=[1], announced=R, done=True)       # the source just answers follow-ups with fresh pages
+        co = Cell(it.call('heartbeat', []))
+        done = poll_once(it, co)[0] == 'ready'
+        info = dict(remaining_follow_ups=R.t, follow_up_index=K.t, requests=[str(x) for x in w.requests])
+        if len(w.requests) != 1 or w.requests[0][0] != 'FollowUp':
+            cands.add(kernel='i', role='paging-state-does-not-send-one-follow-up-request', model=it.model_ if it.feasible() else None, **info)
+            return
+        m = check_unsat(it, rep, zterm(w.requests[0][1]) != K.t)
+        if m is not None:
+            cands.add(kernel='i', role='follow-up-request-number-is-not-the-stored-index', model=m, **info)
+            return
+        if not done:
+            poll_once(it, co)
+        rt = w.sync_field('response_to_process').v
+        if rt.variant != 1:
+            cands.add(kernel='i', role='response-lost-after-a-follow-up-page', model=it.model_ if it.feasible() else None, **info)
+            return
+        drt = prog.src.find_adt(['ResponseToProcess'])
+        inner = rt.fields[0].v
+        vname = [v[0] for v in drt.variants if v[3] == inner.variant][0]
+        last = it.feasible() and check_unsat(it, rep, K.t + 1 != R.t) is None        # on this path K + 1 = R necessarily
+        seen.add((vname, bool(last)))
+        if vname == 'Complete':
+            m = check_unsat(it, rep, K.t + 1 != R.t)
+            if m is not None:
+                cands.add(kernel='i', role='block-declared-complete-before-its-last-page', model=m, **info)
+                return
+            dc = prog.src.find_adt(['types', 'GetSuccessorsCompleteResponse'])
+            blocks = inner.fields[0].v.fields[dc.fields.index('blocks')].v.cells
+            if len(blocks) != 1 or len(blob_ids(blocks[0].v)) != 2 or blob_ids(blocks[0].v)[0] != 1:
+                cands.add(kernel='i', role='reassembled-block-is-not-the-concatenation-of-its-pages', model=it.model_ if it.feasible() else None, **info)
+        else:
+            m = check_unsat(it, rep, K.t + 1 == R.t)
+            if m is not None:
+                cands.add(kernel='i', role='complete-block-kept-as-partial', model=m, **info)
+                return
+            m = check_unsat(it, rep, zterm(inner.fields[1].v.t) != K.t + 1)
+            if m is not None:
+                cands.add(kernel='i', role='stored-follow-up-index-is-not-incremented', model=m, **info)
+                return
+            if len(blob_ids(inner.fields[0].v.fields[prog.src.find_adt(['types', 'GetSuccessorsPartialResponse']).fields.index('partial_block')].v)) != 2:
+                cands.add(kernel='i', role='page-not-appended', model=it.model_ if it.feasible() else None, **info)
+
+    explore(prog, scenario, stats=st, on_panic=lambda it, e: cands.add(kernel='i', role='trap', model=it.model_ if it.feasible() else None, msg=str(e)[:300]))
+    rep.add_stats(st, 'i:follow-up-step-from-an-arbitrary-paging-state')
+    if {'Complete', 'Partial'} <= set(x[0] for x in seen):
+        rep.cov['witnesses'] += 1
+    else:
+        rep.inconclusive = 'vacuity: follow-up step outcomes %s' % sorted(map(str, seen))
+    rep.sample(dict(kernel='i', outcomes=sorted(map(str, seen)), paths=st.paths))
+    return (rep.cov, cands.items, rep.inconclusive)
+
+
 def worker(job):
+    if job == 'step':
+        return worker_step(job)
     events, remaining_choices, prefix = job
     prog = PROG
     rep = H.Report(PROP, 'quick')
@@ -344,6 +419,18 @@ def native_script(replies):
 
 def confirm(cand, known):
     doc = dict(property=PROP, role=cand['role'], summary={k: v for k, v in cand.items() if k not in ('shape',)}, problems=[])
+    if cand.get('kernel') == 'i':
+        # the real heartbeat with a block split into R + 1 pages (every page carries data): it must be applied, without a trap
+        R = cand.get('remaining_follow_ups')
+        R = R if isinstance(R, int) and 1 <= R <= 255 else 255
+        script = [['partial', R]] + [['followup']] * R + [['complete', 0]] * 2
+        res = native_script(script)
+        doc['native'] = res
+        doc['script'] = 'partial announcing %d follow-ups, %d follow-up pages, two empty complete replies' % (R, R)
+        if res.get('traps', 0) > 0 or res.get('applied', 0) != 1:
+            doc['problems'].append('a block split into %d pages: %s traps, %s blocks applied (expected 1), last trap: %s' % (R + 1, res.get('traps'), res.get('applied'), res.get('last_trap')))
+            return 'violation', doc
+        return 'not-reproduced', doc
     # turn the source's log into a reply script for the native mock (GET_SUCCESSORS_RESPONSES) and replay with real heartbeats
     script = []
     for entry in cand.get('log', []):
@@ -398,7 +485,8 @@ def main():
     remaining = 'symbolic u8 per paged block'
     rep.cov['bounds'] = dict(events_in_adversarial_schedule=events, overlapping_heartbeats=2, announced_follow_ups=remaining,
                              complete_replies='0..2 blocks', then='well-behaved continuation of up to 12 heartbeats',
-                             outside='upgrades while a request is in flight; candid transport; more than two overlapping heartbeats; page counts other than listed')
+                             follow_up_step='kernel i: one follow-up step from an arbitrary paging state (announced count and index symbolic u8, index < count)',
+                             outside='upgrades while a request is in flight; candid transport; more than two overlapping heartbeats')
     rep.cov['functions_encoded'] = ['heartbeat (coroutine poll fn)', 'maybe_fetch_blocks (coroutine poll fn + closures #0..#3)', 'FetchBlocksGuard::{new,drop}',
                                     'maybe_get_successors_request', 'maybe_process_response', 'state::get_block_hashes', 'BlockTree::get_hashes/collect_hashes']
     rep.cov['stubs'] = btc.stub_docs(STUBS) + [
@@ -409,11 +497,12 @@ def main():
                        'a trap rolls the message back (IC semantics): a schedule that traps is reported, it is not continued']
     cands = Cands()
     # split the exploration by the first decisions (event 2 choice, first reply) for parallelism
-    jobs = [(events, remaining, [])]
+    jobs = [(events, remaining, []), 'step']
     seen = set()
     for part in parallel(jobs, worker):
         merge_partial(rep, cands, part[:3])
-        seen.update(tuple(x) for x in part[3])
+        if len(part) > 3:
+            seen.update(tuple(x) for x in part[3])
     if len(seen) >= 3:
         rep.cov['witnesses'] += 1
     rep.sample(dict(first_replies_seen=sorted(map(str, seen))[:12]))
